@@ -233,46 +233,124 @@ class Raw:
         self.text = text
 
 
+class _P:
+    """recursive-descent parser for values as TLC prints them: <<..>>, {..}, [a |-> v, ..],
+    (k :> v @@ ..), strings, integers, TRUE/FALSE, model values / identifiers"""
+
+    def __init__(self, text):
+        self.t = text
+        self.i = 0
+
+    def ws(self):
+        while self.i < len(self.t) and self.t[self.i] in " \t\r\n":
+            self.i += 1
+
+    def value(self):
+        self.ws()
+        t, i = self.t, self.i
+        if t.startswith("<<", i):
+            self.i += 2
+            return self.seq(">>")
+        if t[i] == "{":
+            self.i += 1
+            return self.seq("}")
+        if t[i] == "[":
+            self.i += 1
+            out = {}
+            self.ws()
+            while not self.t.startswith("]", self.i):
+                m = re.compile(r"\s*([A-Za-z_][A-Za-z0-9_]*)\s*\|->").match(self.t, self.i)
+                if not m:
+                    raise ValueError(f"record field expected at {self.i}: {self.t[self.i:self.i + 40]!r}")
+                self.i = m.end()
+                out[m.group(1)] = self.value()
+                self.ws()
+                if self.t.startswith(",", self.i):
+                    self.i += 1
+                self.ws()
+            self.i += 1
+            return out
+        if t[i] == "(":
+            self.i += 1
+            out = {}
+            while True:
+                k = self.value()
+                self.ws()
+                if not self.t.startswith(":>", self.i):
+                    raise ValueError(f":> expected at {self.i}")
+                self.i += 2
+                out[json.dumps(k) if not isinstance(k, (str, int)) else k] = self.value()
+                self.ws()
+                if self.t.startswith("@@", self.i):
+                    self.i += 2
+                    continue
+                if self.t.startswith(")", self.i):
+                    self.i += 1
+                    return out
+                raise ValueError(f"@@ or ) expected at {self.i}")
+        if t[i] == '"':
+            j = i + 1
+            while t[j] != '"':
+                j += 2 if t[j] == "\\" else 1
+            self.i = j + 1
+            sv = json.loads(t[i:j + 1])
+            if sv[:1] in "[{" and sv[-1:] in "]}":
+                try:
+                    return json.loads(sv)
+                except ValueError:
+                    pass
+            return sv
+        m = re.compile(r"-?\d+|[A-Za-z_][A-Za-z0-9_]*").match(t, i)
+        if not m:
+            raise ValueError(f"value expected at {i}: {t[i:i + 40]!r}")
+        self.i = m.end()
+        tok = m.group(0)
+        if tok in ("TRUE", "FALSE"):
+            return tok == "TRUE"
+        return int(tok) if tok.lstrip("-").isdigit() else tok
+
+    def seq(self, close):
+        out = []
+        self.ws()
+        while not self.t.startswith(close, self.i):
+            out.append(self.value())
+            self.ws()
+            if self.t.startswith(",", self.i):
+                self.i += 1
+            self.ws()
+        self.i += len(close)
+        return out
+
+
+def parse_value(text):
+    p = _P(text)
+    v = p.value()
+    p.ws()
+    if p.i != len(p.t):
+        raise ValueError(f"trailing text after value: {p.t[p.i:p.i + 40]!r}")
+    return v
+
+
+_REC_START = r'^<<\s*"%s"'
+
+
 def printed_records(res, tag):
-    """PrintT(<<tag, a, b, ...>>) lines -> list of lists of python values (strings are unescaped;
-    strings that look like JSON are decoded)"""
+    """every value printed as PrintT(<<tag, a, b, ...>>) -> [a, b, ...] (nested tuples become lists,
+    records dicts, JSON-looking strings are decoded).  TLC wraps long values over several lines
+    (`<< "TAG",` ...): records are found by their start and parsed to the balancing `>>`.
+    Raises MachineryError if a record start is found that cannot be parsed - a dropped record
+    could be a dropped violation."""
     out = []
-    for line in res.printed():
-        if not line.startswith('<<"' + tag + '"'):
-            continue
-        body = line.strip()[2:-2]
-        vals = []
-        i = 0
-        while i < len(body):
-            c = body[i]
-            if c == '"':
-                j = i + 1
-                while body[j] != '"':
-                    j += 2 if body[j] == "\\" else 1
-                s = json.loads(body[i:j + 1])
-                if s[:1] in "[{" and s[-1:] in "]}":
-                    try:
-                        s = json.loads(s)
-                    except ValueError:
-                        pass
-                vals.append(s)
-                i = j + 1
-            elif c in " ,":
-                i += 1
-            else:
-                j = i
-                while j < len(body) and body[j] not in ",":
-                    j += 1
-                tok = body[i:j].strip()
-                if tok in ("TRUE", "FALSE"):
-                    vals.append(tok == "TRUE")
-                else:
-                    try:
-                        vals.append(int(tok))
-                    except ValueError:
-                        vals.append(tok)
-                i = j
-        out.append(vals[1:])
+    text = res.out
+    for m in re.finditer(_REC_START % re.escape(tag), text, re.M):
+        p = _P(text)
+        p.i = m.start()
+        try:
+            v = p.value()
+        except (ValueError, IndexError) as e:
+            raise MachineryError(f"cannot parse {tag} record printed by TLC at offset {m.start()}: {e}\n"
+                                 + text[m.start():m.start() + 400])
+        out.append(v[1:])
     return out
 
 
